@@ -146,6 +146,7 @@ func init() {
 					Var             string
 					Probe           []int64
 					Fails           [][]int64
+					First           [][]int64 // the subset of Fails that must hold at a first (undominated) test of the variable
 					Props           []string
 					Spec            string
 				} `json:"entries"`
@@ -167,6 +168,7 @@ func init() {
 				}
 				helpers := newHelpersOf(c, f)
 				family := map[string]*thrTest{}
+				topFamily := map[string]bool{}
 				nTests := 0
 				var firstPos token.Pos
 				var done []*thrAn
@@ -198,7 +200,7 @@ func init() {
 						}
 						return ok || sites == 0
 					}
-					an := thresholdFamily(c, em, g, e.Var, e.Kind, e.Probe, family, pf)
+					an := thresholdFamily(c, em, g, e.Var, e.Kind, e.Probe, family, topFamily, pf)
 					done = append(done, an)
 					nTests += an.n
 					if !firstPos.IsValid() {
@@ -228,6 +230,16 @@ func init() {
 					if !want[k] {
 						extra = append(extra, "{"+k+"}")
 						pos = c.P.Pos(t.pos)
+					}
+				}
+				for _, fs := range e.First {
+					var l []string
+					for _, v := range fs {
+						l = append(l, fmt.Sprint(v))
+					}
+					k := strings.Join(l, ",")
+					if family[k] != nil && !topFamily[k] {
+						missing = append(missing, "{"+k+"} at the first test of the variable (it holds only behind another test that lets these values pass)")
 					}
 				}
 				sort.Strings(missing)
@@ -266,7 +278,7 @@ type thrAn struct {
 	feasibleAt func(x ssa.Value, v int64, blk *ssa.BasicBlock) bool
 }
 
-func thresholdFamily(c *Ctx, em *errModel, f *ssa.Function, varName, kind string, probe []int64, family map[string]*thrTest, paramFeasible func(p *ssa.Parameter, v int64) bool) *thrAn {
+func thresholdFamily(c *Ctx, em *errModel, f *ssa.Function, varName, kind string, probe []int64, family map[string]*thrTest, topFamily map[string]bool, paramFeasible func(p *ssa.Parameter, v int64) bool) *thrAn {
 	ff := Facts(c, f)
 	// tests of the variable
 	var tests []*thrTest
@@ -439,6 +451,11 @@ func thresholdFamily(c *Ctx, em *errModel, f *ssa.Function, varName, kind string
 				k := strings.Join(rej, ",")
 				if family[k] == nil {
 					family[k] = t
+				}
+				for _, tp := range topsOf(x) {
+					if tp == t {
+						topFamily[k] = true
+					}
 				}
 			}
 		}
